@@ -2,6 +2,7 @@
 spec/VBPTC.tla + MC_VBPTC.tla: TLC judges observations of encode / extractors: all 2^11 single-burst messages with both
 parities, the 72 / 28 unit messages, all 31 five-bit checksum values, random messages."""
 import json
+from multiprocessing import Pool
 import os
 
 from harness import core
@@ -127,6 +128,7 @@ def run(ctx):
     groups = {}
     for v in core.parse_printed_json(res, tag="REJECT"):
         groups.setdefault((samples[v["idx"]]["kind"], v["why"]), []).append(v["idx"])
+    embedded_lc_phase(ctx)
     for (kind, why), idxs in sorted(groups.items()):
         s = samples[idxs[0]]
         ctx.violation(f"vbptc/{kind}/{why}", f"VBPTC {kind}: {why} fails for {len(idxs)} of the samples, first message (packed) {s['msg']}",
@@ -136,6 +138,94 @@ def run(ctx):
         drift.setdefault((samples[v["idx"]]["kind"], v["why"]), []).append(v["idx"])
     for (kind, why), idxs in sorted(drift.items()):
         ctx.model_drift(f"VBPTC {kind}: {why} for {len(idxs)} samples")
+
+
+def embedded_lc_run(args):
+    """worker: one scenario through the real EmbeddedExtractor: two sources send link controls as four voice bursts each
+    (LCSS first, continuation, continuation, last) inside IPSC frames; some bursts are lost, some carry single-fragment or
+    reverse-channel signalling"""
+    seed, script = args
+    import contextlib
+    import io
+    import random
+    core.setup_repo_path()
+    from bitarray import bitarray
+    from harness import gen
+    from okdmr.dmrlib.etsi.fec.vbptc_128_72 import VBPTC12873
+    from okdmr.dmrlib.tools.pcap_tool import EmbeddedExtractor
+    from scapy.layers.inet import IP, UDP
+    rng = random.Random(seed)
+    ex = EmbeddedExtractor()
+    LCSS = {"S": 0, "F": 1, "L": 2, "C": 3}
+    lcs = {}
+    ev = []
+    for key, g, k, lcss, pi, lose in script:
+        if (key, g) not in lcs:
+            lc = gen.full_lc_voice(rng, rng.randrange(1, 1 << 24), group=bool(rng.getrandbits(1)))
+            word = VBPTC12873.encode(lc.as_bits()[:72])
+            lcs[(key, g)] = (lc.as_bits()[:72], word)
+        if lose:
+            continue
+        sent72, word = lcs[(key, g)]
+        frag = word[32 * k:32 * k + 32] if lcss != "S" else gen.rbits(rng, 32)
+        burst = gen.voice_emb_burst(rng, colour_code=3, pi=int(pi), lcss=LCSS[lcss], emb32=frag)
+        ip, port = ("10.0.0.1", 50000) if key == "k1" else ("10.0.0.2", 50001)
+        frame = gen.ipsc_frame(rng, burst, slot_type=0xBBBB, frame_type=0x1111, colour_code=3, src=7, dst=9)
+        pkt = IP(src=ip, dst="10.9.9.9") / UDP(sport=port, dport=50000)
+        out, err = None, ""
+        try:
+            with contextlib.redirect_stdout(io.StringIO()):
+                out = ex.process_packet(frame, pkt)
+        except Exception as exn:  # noqa
+            err = type(exn).__name__
+        held = ex.data.get(f"{ip}:{port}", (None, bitarray()))[1]
+        ev.append({"key": key, "lcss": lcss, "pi": bool(pi), "g": [key, g], "k": k, "delivered": out is not None,
+                   "same": out is not None and out.as_bits()[:72] == sent72, "nfrag": len(held) // 32, "err": err})
+    return {"ev": ev}
+
+
+def embedded_lc_phase(ctx):
+    """growth beyond the statement (spec/EmbeddedLC.tla): reassembly of the embedded link control over voice bursts"""
+    for cfgname, maxloss in (("MC_EmbeddedLC_3.cfg", 3), ("MC_EmbeddedLC_4.cfg", 4)):
+        with open(os.path.join(ctx.rundir, cfgname), "w") as f:
+            f.write("SPECIFICATION Spec\nCONSTANTS\n  Groups = 2\n  MaxLoss = %d\nINVARIANT SourcesSeparate\nINVARIANT LosslessDeliversAll\n"
+                    "INVARIANT DeliveredOnlyCompleteGroups\nCHECK_DEADLOCK FALSE\n" % maxloss)
+        res = core.run_tlc(ctx, "MC_EmbeddedLC", cfgname, timeout=600, workers=8)
+        ctx.note(f"embedded_lc_design_max_loss_{maxloss}", res.violated or "all invariants hold")
+    jobs = []
+    for i in range(150 if ctx.quick else 3000):
+        script = []
+        nxt = {"k1": 0, "k2": 0}
+        ngroups = ctx.rng.randrange(2, 5)
+        directed = i % 5 == 0        # lose C, L of one superframe and F, C of the next: the pattern TLC found
+        while any(v < 4 * ngroups for v in nxt.values()):
+            key = ctx.rng.choice([k for k, v in nxt.items() if v < 4 * ngroups])
+            n = nxt[key]
+            nxt[key] += 1
+            k = n % 4
+            lose = (directed and key == "k1" and 2 <= n <= 5) or (not directed and ctx.rng.random() < 0.12)
+            script.append((key, n // 4, k, "FCCL"[k], False, lose))
+            if ctx.rng.random() < 0.08:
+                script.append((key, n // 4, k, "S", False, False))                  # a single-fragment burst in between
+            if ctx.rng.random() < 0.05:
+                script.append((key, n // 4, k, "FCCL"[k], True, False))             # a reverse-channel burst in between
+        jobs.append((ctx.seed * 53 + i, script))
+    with Pool(core.NCPU) as pool:
+        runs = pool.map(embedded_lc_run, jobs, chunksize=8)
+    delivered = sum(1 for r in runs for e in r["ev"] if e["delivered"])
+    errs = sorted({e["err"] for r in runs for e in r["ev"] if e["err"]})
+    for r in runs:
+        for e in r["ev"]:
+            e.pop("err")
+            ctx.count(core.digest(["emb", e["key"], e["lcss"], e["delivered"], e["nfrag"]]))
+    ctx.note("embedded_lc_scenarios", len(runs))
+    ctx.note("embedded_lc_link_controls_delivered", delivered)
+    if delivered < 50:
+        raise core.MachineryError("the embedded-LC phase hardly ever got a link control out of the extractor")
+    for x in errs:
+        ctx.outside(f"embedded-LC extractor raised {x} on a voice burst inside a well-formed IPSC frame")
+    for part in core.chunks([{"init": {}, "ev": r["ev"]} for r in runs], 500):
+        ctx.validate_traces("Trace_EmbeddedLC", "Trace_EmbeddedLC.cfg", part)
 
 
 def replay(ctx, rec):
